@@ -16,6 +16,7 @@ void maps_register(void *handle, const char *name, __u32 type, __u32 key_size, _
 void maps_reset(void);
 void maps_quiesce(void);
 void maps_set_current(struct verif_task t);
+void maps_set_max_entries(void *map, __u32 max_entries);
 void maps_info(void *map, __u32 *type, __u32 *key_size, __u32 *value_size, __u32 *max_entries);
 void maps_dump(void *map, FILE *out);
 
